@@ -1519,10 +1519,11 @@ def schema_cases(ctx):
         cases.append(('scope-positions',
                       c03_exprgen.script_text(c03_exprgen.scope_script(ctx.rng, 1, split=True)), 'scope'))
     else:
-        cases.append(('scope-all', c03_exprgen.script_text(c03_exprgen.scope_script(ctx.rng, None)), 'scope'))
         for i in range(6):
             cases.append((f'scope-gen{i}',
-                          c03_exprgen.script_text(c03_exprgen.scope_script(ctx.rng, 2)), 'scope'))
+                          c03_exprgen.script_text(c03_exprgen.scope_script(ctx.rng, 1)), 'scope'))
+        # every (position, expression) pair in both modules: 236 members, ≈ 3 min — last of its stream
+        cases.append(('scope-all', c03_exprgen.script_text(c03_exprgen.scope_script(ctx.rng, None)), 'scope'))
     # dependent-validity schemas: expressions that are well-formed only because of another
     # declaration's property; owners named to print before / after the type they lean on
     cases.append(('dep-object-constraint', c03_exprgen.dep_known_bad_schema(), 'dep'))
@@ -1547,7 +1548,37 @@ def schema_cases(ctx):
         size = ctx.rng.choice([1, 1, 2, 2, 3] if ctx.quick() else [1, 2, 3, 4, 6, 8])
         sdl, g = gen_schema(ctx.rng, size)
         cases.append((f'gen{i}', sdl, g))
+    if not ctx.quick():
+        # deterministic corpus / regression part first, then the streams round-robin, so that the
+        # wall-clock budget of the thorough tier cuts every stream at about the same depth
+        by = collections.OrderedDict((k, []) for k in ('corpus', 'scope', 'dep', 'history', 'generated'))
+        for c in cases:
+            by[stream_of(c[0])].append(c)
+        ctx.rng.shuffle(by['history'])      # 12 histories x every statement: sample them evenly
+        ordered = list(by.pop('corpus'))
+        queues = [q for q in by.values() if q]
+        while queues:
+            for q in list(queues):
+                ordered.append(q.pop(0))
+                if not q:
+                    queues.remove(q)
+        cases = ordered
     return cases
+
+
+def stream_of(tag):
+    if re.match(r'gen\d', tag):
+        return 'generated'
+    if re.match(r'hist\d', tag):
+        return 'history'
+    if tag.startswith('dep-positions'):
+        return 'dep'
+    if tag.startswith('scope-gen') or tag == 'scope-all':
+        return 'scope'
+    return 'corpus'
+
+
+THOROUGH_WALL_BUDGET_S = 20 * 60     # no new non-corpus case is started after this much wall time
 
 
 def run(ctx: core.Ctx):
@@ -1617,9 +1648,24 @@ def run(ctx: core.Ctx):
     case_time = {}
     t_case = time.time()
     prev_tag = None
+    stream_done = collections.Counter()
+    stream_skipped = collections.Counter()
+    stream_total = collections.Counter(stream_of(c[0]) for c in cases)
+    t_progress = time.time()
     for ci, (tag, sdl, g) in enumerate(cases):
         if prev_tag is not None:
             case_time[prev_tag] = round(time.time() - t_case, 1)
+        stream = stream_of(tag)
+        if not ctx.quick() and not ctx.replay and stream != 'corpus' \
+                and time.time() - ctx.t0 > THOROUGH_WALL_BUDGET_S:
+            stream_skipped[stream] += 1
+            prev_tag = None
+            continue
+        stream_done[stream] += 1
+        if time.time() - t_progress > 60:
+            t_progress = time.time()
+            ctx.log('progress:', ', '.join(f'{k} {stream_done[k]}/{stream_total[k]}' for k in stream_total),
+                    f'| {n_eval} replays | now {tag}')
         prev_tag, t_case = tag, time.time()
         t0 = time.time()
         build = 'sdl'
@@ -1771,10 +1817,12 @@ def run(ctx: core.Ctx):
             if g is None and ctx.quick() and tag not in ('witness-two-modules', 'witness-same-short-name') \
                     and len(hostile) > 1:
                 hostile = [hostile[ci % len(hostile)]]      # the two small witnesses keep every kind
-            if build == 'scope' and ctx.quick():
+            # the scope / dependent-validity / history streams are about the current module and the
+            # declaration order, not about aliases: two benign contexts, no shadowing one (both tiers)
+            if build == 'scope':
                 benign = [b for b in benign if b[0] in ('default-module', 'other-module')]
                 hostile = []
-            if is_dep and ctx.quick():
+            if is_dep:
                 benign = benign[:2]
                 hostile = []
         known_migration_witness = False
@@ -1798,7 +1846,9 @@ def run(ctx: core.Ctx):
                 is_hostile = shadows(ma, modules, mentioned_heads)
                 t0 = time.time()
                 if not ctx.quick():
-                    nd = 2
+                    # both directions for the first context, upstream's direction for the other benign
+                    # ones; a shadowing context is compared by the dump (its outcome is differs / error)
+                    nd = 2 if first else (0 if is_hostile else 1)
                 elif first:
                     nd = 2 if ci % 3 == 0 else 1     # upstream's direction always, the reverse on a third
                 else:
@@ -1890,8 +1940,10 @@ def run(ctx: core.Ctx):
 
     if prev_tag is not None:
         case_time[prev_tag] = round(time.time() - t_case, 1)
+    if stream_skipped:
+        ctx.log(f'wall-clock budget ({THOROUGH_WALL_BUDGET_S}s) reached: cases not started:', dict(stream_skipped))
     ctx.log('slowest cases:', sorted(case_time.items(), key=lambda kv: -kv[1])[:8])
-    ctx.log(f'{len(cases)} schemas ({rejected} rejected), {n_eval} replays, {name_lines} name lookups; '
+    ctx.log(f'{sum(stream_done.values())} of {len(cases)} schemas run ({rejected} rejected), {n_eval} replays, {name_lines} name lookups; '
             f'real side {time.time() - t_start:.0f}s; timing {dict((k, round(v, 1)) for k, v in timing.items())}')
 
     # ---- model side
@@ -1955,7 +2007,9 @@ def run(ctx: core.Ctx):
         'disagreements_model_vs_impl': n_dis,
         'timing_s': {k: round(v, 1) for k, v in timing.items()},
         'text_scope_analysis': dict(scope_stats),
-        'seconds_per_case': case_time,
+        'seconds_per_case': case_time if ctx.quick() else dict(sorted(case_time.items(), key=lambda kv: -kv[1])[:40]),
+        'streams': {k: {'cases': stream_total[k], 'run': stream_done[k], 'not_started_budget': stream_skipped[k]}
+                    for k in stream_total},
         'std_schema': R.env.std_info(),
         'exhaustive': False,
         'correspondence': 'real ddl_text_from_schema/sdl_text_from_schema + real apply under modaliases vs '
